@@ -77,15 +77,67 @@ Definition disc_accurate (O : RoundOps) (a b c : C) (eta : R) : Prop :=
 Lemma C4_neq0 : (C1 + C1 + C1 + C1)%C <> C0.
 Proof. intros H. pose proof Cmod_4 as K. rewrite H, Cmod_0 in K. lra. Qed.
 
-Theorem quadratic_forward_lemma (eps : R) (O : RoundOps) (a b c : C) (eta : R) :
-  0 <= eps <= / 100 -> std_model eps O -> a <> C0 -> 0 <= eta <= / 6 -> disc_accurate O a b c eta ->
+(* what the forward analysis uses of the arithmetic, on the input (a, b, c) *)
+Definition fwd_facts (eps : R) (O : RoundOps) (a b c : C) : Prop :=
+  (let X5 := (1 + eps) * (1 + eps) * (1 + eps) * (1 + eps) * (1 + eps) in
+   let Xq := (1 + eps * (1 + eps)) * (1 + eps) * (1 + eps) in
+   let sh := o_sh O a b c in let sg := o_sg O a b c in
+   let qx := ((b + sh * RtoC sg) * RtoC (- / 2))%C in
+   (sg = 1 \/ sg = Ropp 1) /\
+   Cmod (sh * sh - qdisc a b c)%C <= (X5 - 1) * (Cmod b * Cmod b + 4 * (Cmod a * Cmod c)) /\
+   (1 - eps) * (Cmod b * Cmod b + Cmod sh * Cmod sh) <= 4 * (Cmod qx * Cmod qx) /\
+   exists rho : C, o_q O a b c = (qx * rho)%C /\ near rho Xq) /\
+  (o_q O a b c = C0 -> b = C0 /\ c = C0 /\ poly_solve (RoundRAo eps O) [c; b; a] false = Ok ([C0; C0], [])) /\
+  relc eps (o_div O (o_q O a b c) a) (o_q O a b c / a)%C /\
+  (o_q O a b c <> C0 -> relc eps (o_div O c (o_q O a b c)) (c / o_q O a b c)%C).
+
+Lemma fwd_facts_global (eps : R) (O : RoundOps) (a b c : C) :
+  0 <= eps <= / 100 -> std_model eps O -> a <> C0 -> fwd_facts eps O a b c.
+Proof.
+  intros Heps HO Ha.
+  destruct (quadratic_q0_backward_lemma eps O a b c Heps HO Ha) as (Q0 & Q0r & _). cbv zeta in Q0, Q0r. fold (o_q O a b c) in Q0, Q0r.
+  split; [exact (quad_core_o eps O a b c Heps HO)|].
+  split.
+  { intros Zq. destruct (proj1 Q0 Zq) as [Zb Zc]. split; [exact Zb|]. split; [exact Zc|]. exact (Q0r Zq). }
+  destruct HO as (_ & _ & _ & Hd & _ & _). split.
+  - apply Hd. exact Ha.
+  - intros Nq. apply Hd. exact Nq.
+Qed.
+
+Lemma fwd_facts_local (eps : R) (O : RoundOps) (a b c : C) :
+  0 <= eps <= / 100 -> a <> C0 -> quad_ops_ok eps O a b c -> fwd_facts eps O a b c.
+Proof.
+  intros Heps Ha H. unfold quad_ops_ok in H. cbv zeta in H.
+  destruct H as (H1 & H2 & H3 & H4 & H5 & H6 & H7 & H8 & H9 & H10 & H11).
+  pose proof (quad_core_rel eps a b c _ _ _ _ _ _ _ _ _ Heps H1 H2 H3 H4 H5 H6 H7 H8 H9) as K. cbv zeta in K.
+  destruct K as (Hsg & HD & NC & rho & Eq & Hr & _).
+  destruct (quad_residual_rel eps a b c _ _ _ _ _ _ _ _ _ _ Heps Ha H1 H2 H3 H4 H5 H6 H7 H8 H9 H10) as (_ & _ & B2).
+  split; [|split; [|split]].
+  - cbv zeta. split; [exact Hsg|]. split; [exact HD|]. split; [exact NC|]. exists rho. split; [exact Eq | exact Hr].
+  - intros Zq. destruct (B2 Zq) as [Zb Zc]. split; [exact Zb|]. split; [exact Zc|].
+    rewrite poly_solve_deg2_o_eq, Zq.
+    destruct (Ceq_dec C0 C0) as [_|N]; [|now contradiction N].
+    assert (Zr : o_div O C0 a = C0).
+    { unfold relc in H10. fold (q_disc (o_sub O) (o_mul O) (o_scale O) a b c) in H10.
+      change (o_scale O (o_add O b (o_scale O (o_sqrt O (q_disc (o_sub O) (o_mul O) (o_scale O) a b c))
+               (if if Rle_dec 0 (fst (o_mul O (Cconj b) (o_sqrt O (q_disc (o_sub O) (o_mul O) (o_scale O) a b c)))) then true else false
+                then 1 else - (1)))) (- / 2)) with (o_q O a b c) in H10.
+      rewrite Zq in H10. replace (C0 / a)%C with C0 in H10 by (field; exact Ha).
+      rewrite Cmod_0, Rmult_0_r in H10. now apply Cmod_sub_0. }
+    rewrite Zr. reflexivity.
+  - exact H10.
+  - exact H11.
+Qed.
+
+Lemma quadratic_forward_core (eps : R) (O : RoundOps) (a b c : C) (eta : R) :
+  0 <= eps <= / 100 -> fwd_facts eps O a b c -> a <> C0 -> 0 <= eta <= / 6 -> disc_accurate O a b c eta ->
   exists r0 r1 x0 x1 : C, poly_solve (RoundRAo eps O) [c; b; a] false = Ok ([r0; r1], []) /\
     (forall x : C, (a * x * x + b * x + c)%C = (a * (x - x0) * (x - x1))%C) /\
     Cmod (r0 - x0)%C <= (6 * eps + 2 * eta) * Cmod x0 /\ Cmod (r1 - x1)%C <= (6 * eps + 2 * eta) * Cmod x1.
 Proof.
-  intros Heps HO Ha Heta HD.
-  destruct (quadratic_q0_backward_lemma eps O a b c Heps HO Ha) as (Q0 & Q0r & _). cbv zeta in Q0, Q0r. fold (o_q O a b c) in Q0, Q0r.
-  destruct (quad_core_o eps O a b c Heps HO) as (Hsg & _ & NC & rho & Eq & Hr). cbv zeta in Hsg, NC, Eq, Hr.
+  intros Heps HF Ha Heta HD.
+  destruct HF as (F1 & F2 & F3 & F4).
+  destruct F1 as (Hsg & _ & NC & rho & Eq & Hr). cbv zeta in Hsg, NC, Eq, Hr.
   destruct (numeric_bounds eps Heps) as (N1 & N2 & N3 & N4 & N5).
   set (Xq := (1 + eps * (1 + eps)) * (1 + eps) * (1 + eps)) in *.
   set (sh := o_sh O a b c) in *. set (sg := o_sg O a b c) in *.
@@ -95,8 +147,8 @@ Proof.
   destruct (Ceq_dec qx C0) as [Zx|Nx].
   { (* q = 0: b = c = 0, both values are 0 *)
     assert (Zq : o_q O a b c = C0) by (rewrite Eq, Zx; ring).
-    destruct (proj1 Q0 Zq) as [Zb Zc]. exists C0, C0, C0, C0.
-    split; [exact (Q0r Zq)|]. split; [intros x; rewrite Zb, Zc; ring|].
+    destruct (F2 Zq) as (Zb & Zc & E0). exists C0, C0, C0, C0.
+    split; [exact E0|]. split; [intros x; rewrite Zb, Zc; ring|].
     replace (C0 - C0)%C with C0 by ring. rewrite Cmod_0. split; lra. }
   assert (Nq : o_q O a b c <> C0) by (rewrite Eq; apply Cmult_neq_0; assumption).
   (* an exact square root of the exact discriminant *)
@@ -153,10 +205,9 @@ Proof.
     assert (Hc : c = (- (qs * qs + b * qs) / a)%C).
     { transitivity (((qs * qs + b * qs + a * c) - (qs * qs + b * qs)) / a)%C; [field; exact Ha | rewrite Hqs; field; exact Ha]. }
     rewrite Hc. field. split; assumption. }
-  destruct HO as (_ & _ & _ & Hd & _ & _).
   assert (He0 : 0 <= eps) by lra.
-  destruct (rel_mult eps _ _ He0 (Hd (o_q O a b c) a Ha)) as (d9 & D9 & E9).
-  destruct (rel_mult eps _ _ He0 (Hd c (o_q O a b c) Nq)) as (d10 & D10 & E10).
+  destruct (rel_mult eps _ _ He0 F3) as (d9 & D9 & E9).
+  destruct (rel_mult eps _ _ He0 (F4 Nq)) as (d10 & D10 & E10).
   assert (N1pt : near (/ (C1 + theta))%C (/ (1 - t))).
   { replace (1 - t) with (2 - (1 + t)) by ring. apply near_inv; [apply near_1pd; exact Hth | lra]. }
   assert (I1 : / (1 - t) <= 1 + 1.2532 * t).
@@ -178,6 +229,25 @@ Proof.
     apply Rmult_le_compat_r; [apply Cmod_ge_0|].
     assert (B1 : (1 + t) * ((1 + eps) * / (2 - Xq)) <= (1 + t) * (1 + 4.19 * eps)) by (apply Rmult_le_compat_l; lra).
     unfold t in *. nra.
+Qed.
+
+Theorem quadratic_forward_lemma (eps : R) (O : RoundOps) (a b c : C) (eta : R) :
+  0 <= eps <= / 100 -> std_model eps O -> a <> C0 -> 0 <= eta <= / 6 -> disc_accurate O a b c eta ->
+  exists r0 r1 x0 x1 : C, poly_solve (RoundRAo eps O) [c; b; a] false = Ok ([r0; r1], []) /\
+    (forall x : C, (a * x * x + b * x + c)%C = (a * (x - x0) * (x - x1))%C) /\
+    Cmod (r0 - x0)%C <= (6 * eps + 2 * eta) * Cmod x0 /\ Cmod (r1 - x1)%C <= (6 * eps + 2 * eta) * Cmod x1.
+Proof.
+  intros Heps HO Ha. apply quadratic_forward_core; [exact Heps | now apply fwd_facts_global | exact Ha].
+Qed.
+
+(* the same from the local hypotheses: only the operations performed on (a, b, c) *)
+Theorem quadratic_forward_local_lemma (eps : R) (O : RoundOps) (a b c : C) (eta : R) :
+  0 <= eps <= / 100 -> a <> C0 -> quad_ops_ok eps O a b c -> 0 <= eta <= / 6 -> disc_accurate O a b c eta ->
+  exists r0 r1 x0 x1 : C, poly_solve (RoundRAo eps O) [c; b; a] false = Ok ([r0; r1], []) /\
+    (forall x : C, (a * x * x + b * x + c)%C = (a * (x - x0) * (x - x1))%C) /\
+    Cmod (r0 - x0)%C <= (6 * eps + 2 * eta) * Cmod x0 /\ Cmod (r1 - x1)%C <= (6 * eps + 2 * eta) * Cmod x1.
+Proof.
+  intros Heps Ha H. apply quadratic_forward_core; [exact Heps | now apply fwd_facts_local | exact Ha].
 Qed.
 
 (* ---------------------------------------------------------------- the discriminant IS accurate when one of b^2, 4ac dominates *)
@@ -286,6 +356,37 @@ Proof.
   destruct (quadratic_forward_lemma eps O a b c (5.11 * eps * kD) Heps HO Ha Heta HD) as (r0 & r1 & x0 & x1 & E & F & B0 & B1).
   exists r0, r1, x0, x1. split; [exact E|]. split; [exact F|].
   pose proof (Cmod_ge_0 x0). pose proof (Cmod_ge_0 x1).
+  assert (Ek : (6 + 10.22 * kD) * eps = 6 * eps + 2 * (5.11 * eps * kD)) by nra.
+  rewrite Ek. split; assumption.
+Qed.
+
+(* the conditioning statement from the local hypotheses: no operation performed on (a, b, c) leaves its accurate range, and the
+   discriminant has condition number kD *)
+Theorem quadratic_forward_conditioned_local_lemma (eps : R) (O : RoundOps) (a b c : C) (kD : R) :
+  0 <= eps <= / 100 -> a <> C0 -> quad_ops_ok eps O a b c -> 0 <= kD ->
+  Cmod b * Cmod b + 4 * (Cmod a * Cmod c) <= kD * Cmod (qdisc a b c) -> 5.11 * eps * kD <= / 6 ->
+  exists r0 r1 x0 x1 : C, poly_solve (RoundRAo eps O) [c; b; a] false = Ok ([r0; r1], []) /\
+    (forall x : C, (a * x * x + b * x + c)%C = (a * (x - x0) * (x - x1))%C) /\
+    Cmod (r0 - x0)%C <= (6 + 10.22 * kD) * eps * Cmod x0 /\ Cmod (r1 - x1)%C <= (6 + 10.22 * kD) * eps * Cmod x1.
+Proof.
+  intros Heps Ha Hok PkD HkD Hsmall.
+  destruct (fwd_facts_local eps O a b c Heps Ha Hok) as ((_ & HD & _) & _). cbv zeta in HD.
+  destruct (numeric_bounds eps Heps) as (N1 & _).
+  assert (HDA : disc_accurate O a b c (5.11 * eps * kD)).
+  { unfold disc_accurate.
+    set (P := Cmod b * Cmod b + 4 * (Cmod a * Cmod c)) in *.
+    set (X5 := (1 + eps) * (1 + eps) * (1 + eps) * (1 + eps) * (1 + eps)) in *.
+    assert (PP : 0 <= P).
+    { unfold P. assert (0 <= Cmod b * Cmod b) by apply Rle_0_sqr.
+      assert (0 <= Cmod a * Cmod c) by (apply Rmult_le_pos; apply Cmod_ge_0). lra. }
+    assert (K1 : (X5 - 1) * P <= 5.11 * eps * P) by (apply Rmult_le_compat_r; lra).
+    assert (K2 : 5.11 * eps * P <= 5.11 * eps * (kD * Cmod (qdisc a b c))) by (apply Rmult_le_compat_l; lra).
+    lra. }
+  pose proof Heps as [He0 He].
+  assert (Heta0 : 0 <= 5.11 * eps * kD) by (apply Rmult_le_pos; [lra | exact PkD]).
+  assert (Heta : 0 <= 5.11 * eps * kD <= / 6) by (split; assumption).
+  destruct (quadratic_forward_local_lemma eps O a b c (5.11 * eps * kD) Heps Ha Hok Heta HDA) as (r0 & r1 & x0 & x1 & E & F & B0 & B1).
+  exists r0, r1, x0, x1. split; [exact E|]. split; [exact F|].
   assert (Ek : (6 + 10.22 * kD) * eps = 6 * eps + 2 * (5.11 * eps * kD)) by nra.
   rewrite Ek. split; assumption.
 Qed.
